@@ -220,22 +220,42 @@ func checkC11(p *Parser, R0, r *CallResult, faults []kernel.Fault, recoverOn boo
 	// decided on (tail, rule, event offset-as-reported) by walking the actual list.
 	ai := 0
 	seen := map[string]bool{}
+	isDup := func(e exp) bool {
+		// the message e must produce (as far as we know it) was already reported
+		for m := range seen {
+			if strings.HasSuffix(m, e.msgTail) {
+				if ok, _ := full(e, &ErrInfo{Msg: m}); ok {
+					return true
+				}
+			}
+		}
+		return false
+	}
 	for xi, e := range exps {
 		if ai < len(r.Errs) {
-			if ok, _ := full(e, &r.Errs[ai]); ok && !seen[r.Errs[ai].Msg] {
-				el := &r.Errs[ai]
+			el := &r.Errs[ai]
+			ok, _ := full(e, el)
+			identity := el.InjectedIdx == e.inj
+			if e.panic && r.Injected[e.inj].Kind != "panic-err" {
+				identity = true // no error value to be identical to
+			}
+			if ok && !seen[el.Msg] && !identity && !e.panic && isDup(e) {
+				// the head belongs to a later block; this one repeated an earlier message
+				continue
+			}
+			if ok && !seen[el.Msg] {
 				if !el.IsParserError {
 					return "error-type", "an element of the error list is not a parser error: " + el.Msg, nil
 				}
 				if e.panic {
 					pv := r.Injected[e.inj]
-					if pv.Kind == "panic-err" && el.InjectedIdx != e.inj {
+					if !identity {
 						return "inner-identity", "the recovered panic's error value is not the Inner of the final error: " + el.Msg, nil
 					}
 					if el.InnerMsg != pv.Msg {
 						return "panic-message", fmt.Sprintf("the final error's inner message %q is not the panic value %q", el.InnerMsg, pv.Msg), nil
 					}
-				} else if el.InjectedIdx != e.inj {
+				} else if !identity {
 					return "inner-identity", "Inner is not the error value the code block returned: " + el.Msg, nil
 				}
 				seen[el.Msg] = true
@@ -244,15 +264,7 @@ func checkC11(p *Parser, R0, r *CallResult, faults []kernel.Fault, recoverOn boo
 			}
 		}
 		// not at the head of the remaining list: legitimate only as a duplicate of an earlier message
-		dup := false
-		for m := range seen {
-			if strings.HasSuffix(m, e.msgTail) {
-				if ok, _ := full(e, &ErrInfo{Msg: m}); ok {
-					dup = true
-				}
-			}
-		}
-		if dup {
+		if isDup(e) {
 			continue
 		}
 		why := "missing"
